@@ -17,7 +17,7 @@
    [s_H] / [s_FH] = entries of H / F+H, [s_regularization_term = sum_{i,j in reg} s_i H_ij s_j],
    [s_log_evidence = -(chi2 + s^T H s + ln det (F+H)|reg - ln det H|reg + norm)/2]. *)
 From Coq Require Import ZArith QArith Reals List Bool.
-From PAV Require Import Base.NumOps Base.Res Gen.Gen_fit Model.C08 Proofs.C08.
+From PAV Require Import Base.NumOps Base.Res Base.Sum Gen.Gen_fit Model.C08 Model.C08x Proofs.C08 Proofs.C08x.
 Import ListNotations.
 
 (* ---- tie to the code: the three composition formulas are GENERATED from fit_util.py; over the reals they are
@@ -149,6 +149,218 @@ Theorem C08_figure_of_merit_definition : forall (lnf : R -> R) (tp : T (RL lnf))
   Some (match inversion f with Some iv => s_log_evidence tp f iv | None => s_log_likelihood tp f end).
 Proof. exact figure_of_merit_definition. Qed.
 
+(* ================================================================== phase 3 (Model/C08x.v, Proofs/C08x.v) *)
+(* [xval] = the value of a double division: XFin x | XPInf | XNInf | XNaN.  [erase] forgets which non-finite value it is. *)
+
+(* ---- the extended-value maps refine the option-valued maps above, for EVERY NumOps: every theorem about
+        fit_signal_to_noise_map / fit_residual_flux_fraction_map is a theorem about their finite entries *)
+Theorem C08_extended_maps_refine : forall (O : NumOps) (f : fit (T O)) (r d : list (T O)) (mk : list bool),
+  map erase (fit_signal_to_noise_map_x f) = fit_signal_to_noise_map f /\
+  map erase (fit_residual_flux_fraction_map_x f) = fit_residual_flux_fraction_map f /\
+  map erase (residual_flux_fraction_map_from_x r d) = residual_flux_fraction_map_from r d /\
+  map erase (residual_flux_fraction_map_with_mask_from_x r d mk) = residual_flux_fraction_map_with_mask_from r d mk.
+Proof. exact extended_maps_refine. Qed.
+(* ---- masked values are irrelevant / native = slim on the selection, also for the non-finite entries (every NumOps) *)
+Theorem C08_extended_maps_modes_agree : forall (O : NumOps) (f g : fit (T O)),
+  (use_mask f = true ->
+     select (mask f) (fit_signal_to_noise_map_x f) = fit_signal_to_noise_map_x (slim_of f) /\
+     select (mask f) (fit_residual_flux_fraction_map_x f) = fit_residual_flux_fraction_map_x (slim_of f)) /\
+  (agree_on_unmasked f g ->
+     select (mask f) (fit_signal_to_noise_map_x f) = select (mask f) (fit_signal_to_noise_map_x g) /\
+     select (mask f) (fit_residual_flux_fraction_map_x f) = select (mask f) (fit_residual_flux_fraction_map_x g)).
+Proof. exact @x_maps_modes_agree. Qed.
+
+(* ---- signal to noise on EVERY stored pixel -- masked or not, whatever the sign of the noise value there:
+        max(0, data / noise) for a non-zero noise value; for a zero noise value +inf (positive data), 0 (negative
+        data: -inf is clipped) or nan (zero data) *)
+Theorem C08_signal_to_noise_every_pixel : forall (lnf : R -> R) (f : fit (T (RL lnf))),
+  fit_okb f = true ->
+  length (fit_signal_to_noise_map_x f) = length (data f) /\
+  forall i, (i < length (data f))%nat ->
+    nth i (fit_signal_to_noise_map_x f) XNaN = s_snr_x (s_data f i) (at_ (noise f) i).
+Proof. exact signal_to_noise_every_pixel. Qed.
+(* ---- residual flux fraction on every stored pixel: residual / data with the IEEE value for a zero denominator on
+        fitted pixels, a finite 0 in excluded pixels *)
+Theorem C08_residual_flux_fraction_every_pixel : forall (lnf : R -> R) (f : fit (T (RL lnf))),
+  fit_okb f = true ->
+  length (fit_residual_flux_fraction_map_x f) = length (data f) /\
+  forall i, (i < length (data f))%nat ->
+    nth i (fit_residual_flux_fraction_map_x f) XNaN =
+    if excluded f i then XFin 0%R else s_quot_x (s_residual f i) (s_data f i).
+Proof. exact residual_flux_fraction_every_pixel. Qed.
+(* ---- the util-level functions fit_util.residual_flux_fraction_map_from / _with_mask_from *)
+Theorem C08_util_residual_flux_fraction : forall (lnf : R -> R) (r d : list R) (mk : list bool),
+  length d = length r -> length mk = length r ->
+  length (@residual_flux_fraction_map_from_x (RL lnf) r d) = length r /\
+  length (@residual_flux_fraction_map_with_mask_from_x (RL lnf) r d mk) = length r /\
+  forall i, (i < length r)%nat ->
+    nth i (@residual_flux_fraction_map_from_x (RL lnf) r d) XNaN = @s_quot_x (RL lnf) (nth i r 0%R) (nth i d 0%R) /\
+    nth i (@residual_flux_fraction_map_with_mask_from_x (RL lnf) r d mk) XNaN =
+      (if nth i mk true then XFin 0%R else @s_quot_x (RL lnf) (nth i r 0%R) (nth i d 0%R)) /\
+    nth i (@residual_flux_fraction_map_from (RL lnf) r d) None =
+      (if Reqb (nth i d 0%R) 0 then None else Some (nth i r 0 / nth i d 0)%R) /\
+    nth i (@residual_flux_fraction_map_with_mask_from (RL lnf) r d mk) None =
+      (if nth i mk true then Some 0%R else if Reqb (nth i d 0%R) 0 then None else Some (nth i r 0 / nth i d 0)%R).
+Proof. exact util_residual_flux_fraction. Qed.
+
+(* ---- noise covariance: residual_map @ C_inv @ residual_map is the quadratic form sum_ij r_i C_inv_ij r_j ... *)
+Theorem C08_covariance_quadratic_form : forall (lnf : R -> R) (r : list R) (Ci : list (list R)),
+  squareb (length r) Ci = true ->
+  @chi_squared_with_noise_covariance_from (RL lnf) r Ci = @s_quadratic_form (RL lnf) r Ci.
+Proof. exact cov_quadratic_form. Qed.
+(* ... hence r^T C^-1 r: with C_inv . C = identity (the contract of np.linalg.inv, exercised by the correspondence run)
+   it equals r . x for the solution x of C x = r *)
+Theorem C08_covariance_is_inverse_form : forall (lnf : R -> R) (r x : list R) (C Ci : list (list R)),
+  squareb (length r) Ci = true -> length x = length r ->
+  (forall i k, (i < length r)%nat -> (k < length r)%nat ->
+     @s_matmul_at (RL lnf) (length r) Ci C i k = if Nat.eqb i k then 1%R else 0%R) ->
+  (forall j, (j < length r)%nat -> @s_matvec_at (RL lnf) C x j = @at_ (RL lnf) r j) ->
+  @chi_squared_with_noise_covariance_from (RL lnf) r Ci = @s_dot (RL lnf) r x.
+Proof. exact cov_is_inverse_form. Qed.
+(* ... and for uncorrelated noise (C_inv = diag(1 / noise^2)) it is the ordinary chi-squared sum((r / noise)^2) *)
+Theorem C08_covariance_diagonal_is_plain : forall (lnf : R -> R) (r nz : list R) (Ci : list (list R)),
+  squareb (length r) Ci = true -> length nz = length r ->
+  (forall i, (i < length r)%nat -> nth i nz 0%R <> 0%R) ->
+  (forall i j, (i < length r)%nat -> (j < length r)%nat ->
+     @mat_at (RL lnf) Ci i j = if Nat.eqb i j then (/ (nth i nz 0 * nth i nz 0))%R else 0%R) ->
+  @chi_squared_with_noise_covariance_from (RL lnf) r Ci = @chi_squared_from (RL lnf) (@chi_squared_map_from (RL lnf) r nz).
+Proof. exact cov_diagonal_is_plain. Qed.
+(* ---- FitDataset on a dataset with a noise covariance matrix (slim arrays): chi-squared is the quadratic form of the
+        per-pixel residuals data - sky - model; likelihood, regularized likelihood, evidence and figure of merit are the
+        composition formulas on that chi-squared and the noise-map normalization *)
+Theorem C08_covariance_fit_statistics : forall (lnf : R -> R) (tp : T (RL lnf)) (f : fit (T (RL lnf))) (Ci : list (list R)),
+  @cfit_okb (RL lnf) f Ci = true -> noise_positiveb f = true -> fit_inv_okb f = true ->
+  let chi := @s_chi_squared_cov (RL lnf) f Ci in
+  let nn := s_noise_normalization tp f in
+  @cfit_chi_squared (RL lnf) f Ci = chi /\
+  @cfit_reduced_chi_squared (RL lnf) f Ci =
+    (if Nat.eqb (length (data f)) 0 then Raise OtherException else Ok (chi / INR (length (data f)))%R) /\
+  @cfit_log_likelihood (RL lnf) tp f Ci = @s_ll_of (RL lnf) chi nn /\
+  @cfit_log_likelihood_with_regularization (RL lnf) tp f Ci = option_map (@s_llreg_of (RL lnf) chi nn) (inversion f) /\
+  @cfit_log_evidence (RL lnf) tp f Ci = option_map (@s_evidence_of (RL lnf) chi nn) (inversion f) /\
+  @cfit_figure_of_merit (RL lnf) tp f Ci = Some (@s_fom_of (RL lnf) chi nn (inversion f)).
+Proof. exact cfit_statistics. Qed.
+(* ---- the composition layer on ANY chi-squared / noise normalization (shared by the plain, covariance and
+        interferometer fits): the formulas of the property text *)
+Theorem C08_composition_on_any_chi_squared : forall (lnf : R -> R) (chi nn : R) (iv : inv (T (RL lnf))),
+  inv_okb iv = true ->
+  @ll_from (RL lnf) chi nn = (- ((chi + nn) / 2))%R /\
+  @llreg_from (RL lnf) chi nn (Some iv) = Some (- ((chi + s_regularization_term iv + nn) / 2))%R /\
+  @evidence_from (RL lnf) chi nn (Some iv) =
+    Some (if has_reg (objs iv) then (- ((chi + s_regularization_term iv + s_logdet_FH iv - s_logdet_H iv + nn) / 2))%R
+          else (- ((chi + nn) / 2))%R) /\
+  @fom_from (RL lnf) chi nn (Some iv) = @evidence_from (RL lnf) chi nn (Some iv) /\
+  @fom_from (RL lnf) chi nn None = Some (@ll_from (RL lnf) chi nn) /\
+  @llreg_from (RL lnf) chi nn None = None /\ @evidence_from (RL lnf) chi nn None = None.
+Proof. exact composition_on_any_chi_squared. Qed.
+
+(* ---- FitInterferometer: complex residuals, per-component definitions (independent of use_mask_in_fit: the mask is
+        all False), chi-squared and noise normalization summed over real and imaginary parts, reduced chi-squared
+        dividing by the number of visibilities *)
+Theorem C08_interferometer_definitions : forall (lnf : R -> R) (tp : T (RL lnf)) (v : vfit (T (RL lnf))),
+  vfit_okb v = true ->
+  length (vfit_residual_map v) = length (vdata v) /\ length (vfit_normalized_residual_map v) = length (vdata v) /\
+  length (vfit_chi_squared_map v) = length (vdata v) /\ length (vfit_signal_to_noise_map v) = length (vdata v) /\
+  (forall k, (k < length (vdata v))%nat ->
+     nth k (vfit_residual_map v) (0, 0)%R = sv_residual v k /\
+     nth k (vfit_normalized_residual_map v) (0, 0)%R = sv_normres v k /\
+     nth k (vfit_chi_squared_map v) (0, 0)%R = sv_chi v k /\
+     nth k (vfit_signal_to_noise_map v) (XNaN, XNaN) =
+       (s_snr_x (vre (vdata v) k) (vre (vnoise v) k), s_snr_x (vim (vdata v) k) (vim (vnoise v) k))) /\
+  vfit_chi_squared v = sv_chi_squared v /\
+  vfit_noise_normalization tp v = sv_noise_normalization tp v /\
+  vfit_log_likelihood tp v = @s_ll_of (RL lnf) (sv_chi_squared v) (sv_noise_normalization tp v) /\
+  vfit_reduced_chi_squared v = (if Nat.eqb (length (vdata v)) 0 then Raise OtherException
+                                else Ok (sv_chi_squared v / INR (length (vdata v)))%R).
+Proof. exact vfit_definitions. Qed.
+(* ---- ... and every scalar statistic is that of the REAL fit (theorems above) on the 2 n real components *)
+Theorem C08_interferometer_is_real_fit_on_components : forall (lnf : R -> R) (tp : T (RL lnf)) (v : vfit (T (RL lnf))),
+  vfit_okb v = true ->
+  fit_okb (real_fit_of v) = true /\
+  vfit_chi_squared v = fit_chi_squared (real_fit_of v) /\
+  vfit_noise_normalization tp v = fit_noise_normalization tp (real_fit_of v) /\
+  vfit_log_likelihood tp v = fit_log_likelihood tp (real_fit_of v) /\
+  vfit_log_likelihood_with_regularization tp v = fit_log_likelihood_with_regularization tp (real_fit_of v) /\
+  vfit_log_evidence tp v = fit_log_evidence tp (real_fit_of v) /\
+  vfit_figure_of_merit tp v = fit_figure_of_merit tp (real_fit_of v).
+Proof. exact interferometer_is_real_fit_on_components. Qed.
+
+(* ---- preloads (inversion/abstract.py): absent, or carrying the true regularization matrix / log-determinant, they change nothing
+        (every NumOps) ... *)
+Theorem C08_preloads_absent_or_consistent : forall (O : NumOps) (p : pre (T O)) (iv : inv (T O)),
+  (pre_H p = None \/ pre_H p = Some (regularization_matrix iv)) ->
+  (pre_ldr p = None \/ pre_ldr p = Some (logdet (regularization_matrix_reduced iv))) ->
+  p_regularization_matrix p iv = regularization_matrix iv /\
+  p_curvature_reg_matrix p iv = curvature_reg_matrix iv /\
+  p_regularization_matrix_reduced p iv = regularization_matrix_reduced iv /\
+  p_curvature_reg_matrix_reduced p iv = curvature_reg_matrix_reduced iv /\
+  p_regularization_term p iv = regularization_term iv /\
+  p_log_det_curvature_reg_matrix_term p iv = log_det_curvature_reg_matrix_term iv /\
+  p_log_det_regularization_matrix_term p iv = log_det_regularization_matrix_term iv.
+Proof. exact @preloads_absent_or_consistent. Qed.
+(* ... and ANY preloaded matrix H' of the right size is used consistently: both reduced matrices are the restrictions of H' and
+   F + H' to the regularized parameters, the curvature log-determinant is taken of the restricted F + H', a preloaded
+   log-determinant stands for ln det of the restricted H' only, and the regularization term is the quadratic form of H' *)
+Theorem C08_preloaded_terms_are_restricted : forall (O : NumOps) (p : pre (T O)) (iv : inv (T O)),
+  inv_okb iv = true -> pre_okb p iv = true ->
+  p_regularization_matrix_reduced p iv = tabulate (s_H_eff p iv) (reg_indices (objs iv)) /\
+  p_curvature_reg_matrix_reduced p iv = tabulate (s_FH_eff p iv) (reg_indices (objs iv)) /\
+  p_log_det_curvature_reg_matrix_term p iv =
+    (if has_reg (objs iv) then lnT O (det (tabulate (s_FH_eff p iv) (reg_indices (objs iv)))) else zero) /\
+  p_log_det_regularization_matrix_term p iv =
+    (if has_reg (objs iv)
+     then match pre_ldr p with Some v => v | None => lnT O (det (tabulate (s_H_eff p iv) (reg_indices (objs iv)))) end
+     else zero).
+Proof. exact @preloaded_terms_are_restricted. Qed.
+Theorem C08_preloaded_regularization_term : forall (lnf : R -> R) (p : pre (T (RL lnf))) (iv : inv (T (RL lnf))),
+  inv_okb iv = true -> pre_okb p iv = true ->
+  p_regularization_term p iv =
+  sumR (map (fun i => sumR (map (fun j => (at_ (recon iv) i * s_H_eff p iv i j * at_ (recon iv) j)%R) (reg_indices (objs iv))))
+            (reg_indices (objs iv))).
+Proof. exact p_regularization_term_is_spec. Qed.
+
+(* ---- non-vacuity of the phase-3 hypotheses *)
+(* a slim 2-pixel fit with the covariance C = [[1 1] [1 2]], C^-1 = [[2 -1] [-1 1]], residual (2, -1), x = (5, -3): chi-squared 13 *)
+Example C08_hyps_satisfiable_covariance :
+  let f := ex_cfit (RL ln) in let r := [2; -1]%R in
+  @cfit_okb (RL ln) f (ex_Cinv (RL ln)) = true /\ noise_positiveb f = true /\ fit_inv_okb f = true /\
+  @fit_residual_map (RL ln) f = r /\
+  squareb (length r) (ex_Cinv (RL ln)) = true /\ length (ex_x (RL ln)) = length r /\
+  (forall i k, (i < length r)%nat -> (k < length r)%nat ->
+     @s_matmul_at (RL ln) (length r) (ex_Cinv (RL ln)) (ex_C (RL ln)) i k = if Nat.eqb i k then 1%R else 0%R) /\
+  (forall j, (j < length r)%nat -> @s_matvec_at (RL ln) (ex_C (RL ln)) (ex_x (RL ln)) j = @at_ (RL ln) r j) /\
+  @s_dot (RL ln) r (ex_x (RL ln)) = 13%R.
+Proof. exact ex_cov_hyps_R. Qed.
+Example C08_hyps_satisfiable_diagonal_covariance :
+  let r := [2; -1]%R in let nz := [1; 2]%R in
+  squareb (length r) (ex_Cdiag_inv (RL ln)) = true /\ length nz = length r /\
+  (forall i, (i < length r)%nat -> nth i nz 0%R <> 0%R) /\
+  (forall i j, (i < length r)%nat -> (j < length r)%nat ->
+     @mat_at (RL ln) (ex_Cdiag_inv (RL ln)) i j = if Nat.eqb i j then (/ (nth i nz 0 * nth i nz 0))%R else 0%R).
+Proof. exact ex_cov_diag_hyps_R. Qed.
+Example C08_hyps_satisfiable_interferometer :
+  vfit_okb (ex_vfit (RL ln) true) = true /\ vfit_okb (ex_vfit (RL ln) false) = true /\
+  length (vdata (ex_vfit (RL ln) true)) = 3%nat.
+Proof. exact ex_vis_hyps_R. Qed.
+(* a preloaded regularization matrix that differs from the assembled one (and a preloaded log-determinant) *)
+Example C08_hyps_satisfiable_preloads :
+  inv_okb (ex_inv (RL ln)) = true /\ pre_okb (ex_pre (RL ln)) (ex_inv (RL ln)) = true /\
+  p_regularization_matrix (ex_pre (RL ln)) (ex_inv (RL ln)) <> regularization_matrix (ex_inv (RL ln)).
+Proof. exact ex_pre_hyps. Qed.
+(* the values the model computes on those inputs (rational execution): covariance chi-squared 13 (= r . x above) against the
+   uncorrelated 4 + 1/4; interferometer chi-squared (1 + 1/4) + (1 + 0) + (0 + 4) = 25/4 whatever use_mask_in_fit is;
+   signal to noise of the visibility (-3, 0) with noise (2, 2): (0, 0); of (0, -1) with noise (4, 1): (0, 0) *)
+Example C08_example_values_phase3 :
+  @cfit_chi_squared QOps (ex_cfit QOps) (ex_Cinv QOps) = (13 # 1)%Q /\
+  Qeq_bool (@cfit_chi_squared QOps (ex_cfit QOps) (ex_Cdiag_inv QOps)) (17 # 4) = true /\
+  Qeq_bool (@fit_chi_squared QOps (ex_cfit QOps)) (17 # 4) = true /\
+  @vfit_chi_squared QOps (ex_vfit QOps true) = (25 # 4)%Q /\ @vfit_chi_squared QOps (ex_vfit QOps false) = (25 # 4)%Q /\
+  @vfit_signal_to_noise_map QOps (ex_vfit QOps true) =
+    [(XFin (1#1), XFin (1#1)); (XFin (0#1), XFin (0#1)); (XFin (0#1), XFin (0#1))]%Q /\
+  @xclip QOps (@xdiv QOps (-3#1) (0#1))%Q = XFin (0#1)%Q /\ @xclip QOps (@xdiv QOps (3#1) (0#1))%Q = XPInf /\
+  @xclip QOps (@xdiv QOps (0#1) (0#1))%Q = XNaN /\ @xclip QOps (@xdiv QOps (3#1) (-2#1))%Q = XFin (0#1)%Q.
+Proof. vm_compute. repeat split. Qed.
+
 (* ---- non-vacuity: concrete inputs meeting the hypotheses (Proofs/C08.v, section Examples) *)
 (* a masked-native 2 x 2 fit with a sky offset, one masked pixel and a partially regularized inversion *)
 Example C08_hyps_satisfiable_R :
@@ -191,3 +403,11 @@ Print Assumptions C08_log_det_terms_are_restricted. Print Assumptions C08_regula
 Print Assumptions C08_regularization_term_ignores_unregularized. Print Assumptions C08_evidence_composition.
 Print Assumptions C08_figure_of_merit_selection. Print Assumptions C08_evidence_present_iff_inversion.
 Print Assumptions C08_figure_of_merit_definition.
+Print Assumptions C08_extended_maps_refine. Print Assumptions C08_extended_maps_modes_agree.
+Print Assumptions C08_signal_to_noise_every_pixel. Print Assumptions C08_residual_flux_fraction_every_pixel.
+Print Assumptions C08_util_residual_flux_fraction. Print Assumptions C08_covariance_quadratic_form.
+Print Assumptions C08_covariance_is_inverse_form. Print Assumptions C08_covariance_diagonal_is_plain.
+Print Assumptions C08_covariance_fit_statistics. Print Assumptions C08_composition_on_any_chi_squared.
+Print Assumptions C08_interferometer_definitions. Print Assumptions C08_interferometer_is_real_fit_on_components.
+Print Assumptions C08_preloads_absent_or_consistent. Print Assumptions C08_preloaded_terms_are_restricted.
+Print Assumptions C08_preloaded_regularization_term.
